@@ -134,30 +134,31 @@ def check_decoder_layout(ctx):
                 continue
             ndec += 1
             has_str = any(a[0] == "str" for a in e.parsed["args"])
-            have = e.parsed["payload_size"] + (5 if has_str else 0)
-            store = {("SPEC", F("ev_spec", "nargs")): INT(len(e.parsed["args"])),
-                     ("SPEC", F("ev_spec", "payload_size")): INT(e.parsed["payload_size"]),
-                     ("SPEC", F("ev_spec", "is_jumbo")): INT(1 if e.parsed["jumbo"] else 0),
-                     ("EV", F("emu_ev", "payload")): PTR("PL"), ("EV", F("emu_ev", "payload_size")): INT(have),
-                     ("EV", F("emu_ev", "is_jumbo")): INT(1 if e.parsed["jumbo"] else 0)}
-            for k_, (ty, nm, off, sz) in enumerate(e.parsed["args"]):
-                ap = F("ev_spec", "args") + (k_,)
-                store[("SPEC", ap + F("ev_arg", "type"))] = INT(tyv[ty])
-                store[("SPEC", ap + F("ev_arg", "offset"))] = INT(off)
-                store[("SPEC", ap + F("ev_arg", "size"))] = INT(sz)
-            from rules.strutil import byte_store, s_memchr
-            data = bytearray(b"\x41" * have)
-            if has_str:
-                data[-1] = 0
-            store.update(byte_store("PL", bytes(data)))
-            exc = absint.Explorer(prog, effects=eff, loop_bound=max(len(e.parsed["args"]), have) + 4,
-                                  summaries={"memchr": s_memchr})
-            outs = [o for o in exc.run(chk, [PTR("SPEC"), PTR("EV")], store) if o.kind == "ret"]
-            ctx.check(bool(outs) and all(o.ret == INT(0) for o in outs), "R18.4",
-                      "%s:%s:declared-shape-decodable" % (m.name, e.mcv), chk.loc(),
-                      "%s carrying a payload of its declared shape '%s' (%d bytes%s) is refused by the printer's "
-                      "payload check: ovnidump prints UNKNOWN for a listed event" %
-                      (e.mcv, e.sig, have, ", string terminated" if has_str else ""))
+            for slen in ((0, 1, 4) if has_str else (None,)):
+                have = e.parsed["payload_size"] + ((slen + 1) if has_str else 0)
+                store = {("SPEC", F("ev_spec", "nargs")): INT(len(e.parsed["args"])),
+                         ("SPEC", F("ev_spec", "payload_size")): INT(e.parsed["payload_size"]),
+                         ("SPEC", F("ev_spec", "is_jumbo")): INT(1 if e.parsed["jumbo"] else 0),
+                         ("EV", F("emu_ev", "payload")): PTR("PL"), ("EV", F("emu_ev", "payload_size")): INT(have),
+                         ("EV", F("emu_ev", "is_jumbo")): INT(1 if e.parsed["jumbo"] else 0)}
+                for k_, (ty, nm, off, sz) in enumerate(e.parsed["args"]):
+                    ap = F("ev_spec", "args") + (k_,)
+                    store[("SPEC", ap + F("ev_arg", "type"))] = INT(tyv[ty])
+                    store[("SPEC", ap + F("ev_arg", "offset"))] = INT(off)
+                    store[("SPEC", ap + F("ev_arg", "size"))] = INT(sz)
+                from rules.strutil import byte_store, s_memchr
+                data = bytearray(b"\x41" * have)
+                if has_str:
+                    data[-1] = 0
+                store.update(byte_store("PL", bytes(data)))
+                exc = absint.Explorer(prog, effects=eff, loop_bound=max(len(e.parsed["args"]), have) + 4,
+                                      summaries={"memchr": s_memchr})
+                outs = [o for o in exc.run(chk, [PTR("SPEC"), PTR("EV")], store) if o.kind == "ret"]
+                ctx.check(bool(outs) and all(o.ret == INT(0) for o in outs), "R18.4",
+                          "%s:%s:declared-shape-decodable%s" % (m.name, e.mcv, "" if slen in (None, 4) else ":string-of-%d" % slen), chk.loc(),
+                          "%s carrying a payload of its declared shape '%s' (%d bytes%s) is refused by the printer's "
+                          "payload check: ovnidump prints UNKNOWN for a listed event" %
+                          (e.mcv, e.sig, have, ", string terminated" if has_str else ""))
     ctx.need(ndec >= 15, "R18.4: only %d declared events with arguments" % ndec)
 
 
@@ -304,3 +305,19 @@ def run(ctx):
                               "handler reads payload bytes [%d,%d) for %s but the catalogue declares a payload "
                               "of %d bytes (%s)" % (off, off + size, e.mcv, ps, e.sig))
     ctx.note("pairs evaluated per model: 65536; models: %d; total %d" % (len(ms), total_pairs))
+
+
+_run_base = run
+
+
+def run(ctx):
+    _run_base(ctx)
+    prog = ctx.prog
+    ctx.rule("R18.5", "listed events are processed where they are legal: the flags the models' thread-state "
+             "preconditions test mean what the thread model documents (C04 R4.3: active in running, cooling and "
+             "warming), and the duplicate table a model declares reaches its thread channels (identical nested "
+             "regions are legal where the model says so)")
+    from rules import round3
+    round3.share(ctx, "R18.5", "C04", lambda i_: i_["rule"] == "R4.3" and i_["inst"].startswith("thread_set_state:TH_ST_"),
+                 "thread-flags:", "listed events are rejected in a state where they are legal", 6)
+    round3.check_dup_table_on_thread_spec(ctx, "R18.5")
